@@ -14,12 +14,13 @@ func init() {
 		Technique:  "finite case analysis of strs.GoCamelCase over all (previous byte, byte, next byte) contexts of protobuf identifier characters; shape rule for GoSanitized; CFG dominance of the FieldMask reversibility test (static)",
 		Explain:    "Decides three of the four clauses of C42 structurally: (1) GoCamelCase processes its input byte by byte with a switch whose conditions depend only on the byte, on whether it is the first, on the previous byte being '.', and on the class of the next byte; the switch is evaluated for every context over the identifier alphabet [A-Za-z0-9_] (every first byte in [A-Za-z_] with every possible next byte or none; every later byte with every previous and next byte): at the first position at least one byte is emitted and the first emitted byte is in [A-Z], and every byte ever emitted is in [A-Za-z0-9_] — so the result of a valid protobuf identifier matches [A-Z][A-Za-z0-9_]*, an exported Go identifier that is not a keyword; (2) GoSanitized maps every rune that is not a Unicode letter or digit to '_' and prefixes '_' whenever the result is a keyword or does not start with a letter, so the result is a Go identifier (letter or '_' first, then letters, digits, '_') and not a keyword; (3) JSONSnakeCase(JSONCamelCase(s)) == s holds for every FieldMask path protojson emits, because the writer emits a path only on that established equality (R-FIELDMASK-REVERSIBLE).",
 		NotCovered: "pairwise distinctness of the names inside a generated message (needs the generator's name-allocation on concrete schemas); identifiers containing '.' (full names) in GoCamelCase.",
-		Quick:      all("./internal/strs", "./encoding/protojson"),
+		Quick:      all("./internal/strs", "./encoding/protojson", "./compiler/protogen", "./cmd/protoc-gen-go/internal_gengo"),
 		Thorough:   all("./..."),
 		Run: func(c *Ctx) {
 			c.ruleGoCamelCase("R-GOCAMEL-IDENT")
 			c.ruleGoSanitized("R-GOSANITIZED-SHAPE")
 			c.ruleFieldMaskReversible("R-FIELDMASK-REVERSIBLE")
+			c.ruleMethodClashCoverage("R-METHOD-CLASH-COVERAGE")
 		},
 	})
 }
@@ -426,4 +427,108 @@ func (c *Ctx) ruleGoSanitized(rule string) {
 		return true
 	})
 	R.Check(prefixOK, rule, fi.Key+" prefix", P.Pos(fi.Decl), "'_' prefixed on keyword or non-letter start", "the result is not prefixed with '_' both when it is a Go keyword and when it does not start with a letter (digits, empty string): it is not a valid non-keyword identifier")
+}
+
+// R-METHOD-CLASH-COVERAGE: opaqueNewMessageHook decides whether the accessor
+// names of a field clash with another field's name by looking at the methods
+// the field will get. That list has to cover what the generator emits: Get and
+// Set always, Has and Clear under the very condition under which
+// internal_gengo emits opaqueGenHas / opaqueGenClear. A narrower condition
+// leaves a HasX method and a field (or getter) named HasX in one struct.
+func (c *Ctx) ruleMethodClashCoverage(rule string) {
+	R, P := c.R, c.P
+	R.Rule(rule, "protogen.opaqueNewMessageHook considers Set and Get for every field and adds Has and Clear under a condition C; every call of internal_gengo.opaqueGenHas / opaqueGenClear is preceded in its loop by `if !C { continue }`, so every emitted accessor was considered for clashes; oneof unions are checked for Has, Clear and Which", 4)
+	hook := c.need(rule, "compiler/protogen.opaqueNewMessageHook")
+	if hook == nil {
+		return
+	}
+	info := hook.Info()
+	strLits := func(n ast.Node) map[string]bool {
+		out := map[string]bool{}
+		walk(n, func(m ast.Node) bool {
+			if bl, ok := m.(*ast.BasicLit); ok && bl.Kind == token.STRING {
+				out[constantString(info.Types[bl].Value)] = true
+			}
+			return true
+		})
+		return out
+	}
+	var base map[string]bool
+	var presenceCond ast.Expr
+	var oneofSet map[string]bool
+	walkAll(hook.Decl.Body, func(n ast.Node) bool {
+		switch x := n.(type) {
+		case *ast.AssignStmt:
+			if len(x.Lhs) == 1 && exprStr(x.Lhs[0]) == "methods" && x.Tok == token.DEFINE {
+				base = strLits(x.Rhs[0])
+			}
+		case *ast.IfStmt:
+			for _, st := range x.Body.List {
+				if as, ok := st.(*ast.AssignStmt); ok && len(as.Lhs) == 1 && exprStr(as.Lhs[0]) == "methods" {
+					l := strLits(as.Rhs[0])
+					if l["Has"] && l["Clear"] {
+						presenceCond = x.Cond
+					}
+				}
+			}
+		case *ast.RangeStmt:
+			if cl, ok := unparen(x.X).(*ast.CompositeLit); ok {
+				l := strLits(cl)
+				if l["Which"] {
+					oneofSet = l
+				}
+			}
+		}
+		return true
+	})
+	R.Check(base["Get"] && base["Set"], rule, hook.Key+" base methods", P.Pos(hook.Decl), "Get and Set considered for every field", "the clash check does not consider both Get and Set for every field")
+	R.Check(oneofSet["Has"] && oneofSet["Clear"] && oneofSet["Which"], rule, hook.Key+" oneof methods", P.Pos(hook.Decl), "Has, Clear, Which considered for oneof unions", "the clash check of oneof unions does not consider Has, Clear and Which")
+	if presenceCond == nil {
+		R.Unk(rule, hook.Key+" Has/Clear condition", P.Pos(hook.Decl), "`if C { methods = append(methods, \"Has\", \"Clear\") }` not found")
+		return
+	}
+	want := "!" + exprStr(presenceCond)
+	for _, callee := range []string{"opaqueGenHas", "opaqueGenClear"} {
+		n := 0
+		for _, fi := range P.FuncsIn("cmd/protoc-gen-go/internal_gengo") {
+			if fi.Decl.Body == nil {
+				continue
+			}
+			ginfo := fi.Info()
+			walkAll(fi.Decl.Body, func(m ast.Node) bool {
+				rs, ok := m.(*ast.RangeStmt)
+				if !ok {
+					return true
+				}
+				var guards []string
+				for _, st := range rs.Body.List {
+					if is, ok := st.(*ast.IfStmt); ok && len(is.Body.List) == 1 {
+						if br, ok := is.Body.List[0].(*ast.BranchStmt); ok && br.Tok == token.CONTINUE {
+							guards = append(guards, exprStr(is.Cond))
+						}
+					}
+					es, ok := st.(*ast.ExprStmt)
+					if !ok {
+						continue
+					}
+					call, ok := es.X.(*ast.CallExpr)
+					if !ok || calleeKey(ginfo, call) != "cmd/protoc-gen-go/internal_gengo."+callee {
+						continue
+					}
+					n++
+					found := false
+					for _, g := range guards {
+						if g == want {
+							found = true
+						}
+					}
+					R.Check(found, rule, fi.Key+" emits "+callee, P.Pos(call), "under "+exprStr(presenceCond), "the generator emits "+callee+" under the guards {"+strings.Join(guards, "; ")+"} but the clash check adds Has/Clear only if `"+exprStr(presenceCond)+"`: a field for which the accessor is emitted without having been considered can get a Has/Clear method whose name equals another field's name or getter")
+				}
+				return true
+			})
+		}
+		if n == 0 {
+			R.Unk(rule, callee+" call sites", "", "no call of "+callee+" found in a field loop of internal_gengo")
+		}
+	}
 }
